@@ -72,14 +72,104 @@ theorem C03_enter_inv (s : DrvState) (hw : s.Wf) (hs : ShadowOk s.d) (hr : Radio
     (∀ j, j ≠ s.d.rid → (exec enter s).2.cfgAt j = s.cfgAt j) :=
   enter_inv s hw hs hr hvis hplus hlog
 
-/-- **`__init__` establishes the invariant** on a plus-variant chip in any well-formed state (any
-    register contents, FIFOs, flags): the constructor succeeds, detects the variant, and leaves
-    cache = radio with every register in range. -/
-theorem C03_init_inv (s : DrvState) (hw : s.Wf) (hr : RadioShape s.cfg) (hplus : s.cfg.plus = true)
+/-- **`__init__` establishes the invariant** on ANY chip — nRF24L01+ or the non-plus nRF24L01,
+    feature registers locked or unlocked — in any well-formed state (any register contents, FIFOs,
+    flags): the constructor succeeds, detects the variant (`Inv.cached.isPlus`), leaves the feature
+    registers accessible (`Inv.ok.vis`) and cache = radio with every register in range.
+    (Before the repair 17d8151 this held on plus chips only: hypothesis `s.cfg.plus = true`.) -/
+theorem C03_init_inv (s : DrvState) (hw : s.Wf) (hr : RadioShape s.cfg)
     (hlog : LogOk s.cfg.violations) (hd : s.d.config = 0x0E) :
     (exec init s).1 = .ok () ∧ Inv (exec init s).2 ∧
     (∀ j, j ≠ s.d.rid → (exec init s).2.cfgAt j = s.cfgAt j) :=
-  init_inv s hw hr hplus hlog hd
+  init_inv s hw hr hlog hd
+
+/-- **`__init__` detects the chip variant and unlocks the feature registers** (closes the known
+    findings K2 and K1).  For EVERY world and every prior state of the object's radio — plus or
+    non-plus (`plus`), feature registers accessible or not (`activated`), ANY content of FEATURE,
+    DYNPD and every other register (`RadioShape`: the address / width registers have their hardware
+    shape, a typing condition on the chip model, not a restriction of its state), anything in the
+    FIFOs, on the air, in the chip's violation log — on an object with the constructor's CONFIG
+    shadow: `RF24.__init__` returns normally; `_is_plus_variant` equals the chip's variant; the chip's
+    variant is what it was; the chip's FEATURE/DYNPD registers are accessible when it returns (so the
+    writes of every later `__enter__` take effect); every shadow equals its register; no other
+    radio's configuration is touched. -/
+theorem C03_init_detects_variant (s : DrvState) (hw : s.Wf) (hr : RadioShape s.cfg) (hd : s.d.config = 0x0E) :
+    let out := exec init s
+    out.1 = .ok () ∧
+    out.2.d.isPlus = (s.w.radio s.d.rid).plus ∧
+    (out.2.w.radio s.d.rid).plus = (s.w.radio s.d.rid).plus ∧
+    (out.2.w.radio s.d.rid).featureVisible = true ∧
+    Cached out.2.d out.2.cfg ∧ out.2.d.rid = s.d.rid ∧
+    (∀ j, j ≠ s.d.rid → out.2.cfgAt j = s.cfgAt j) := by
+  intro out
+  obtain ⟨c, hpost, hplus, hvis, _⟩ := init_post s hw hr hd
+  have hcfg : out.2.cfg = c := hpost.cfg
+  have hrad : (out.2.w.radio s.d.rid).cfgOf = c := by
+    have := hcfg
+    unfold DrvState.cfg at this
+    rw [hpost.rid] at this
+    exact this
+  refine ⟨hpost.res, ?_, ?_, ?_, hcfg ▸ hpost.cached, hpost.rid, hpost.frame⟩
+  · exact hpost.cached.isPlus.trans hplus
+  · show (out.2.w.radio s.d.rid).cfgOf.plus = _
+    rw [hrad]; exact hplus
+  · show (out.2.w.radio s.d.rid).cfgOf.featureVisible = true
+    rw [hrad]; exact hvis
+
+/-- the situation of K1 / K2: a non-plus chip whose FEATURE register holds 0 with the feature
+    registers unlocked (what a `FakeBLE` object leaves behind), and — the reset state — locked -/
+def nonplusWorld (activated : Bool) : DrvState :=
+  { d := {}, w := { World.fresh 1 false with radios := [{ plus := false, activated := activated, feature := 0 }] } }
+
+example : ∀ a, (nonplusWorld a).Wf ∧ RadioShape (nonplusWorld a).cfg ∧ (nonplusWorld a).d.config = 0x0E ∧
+    (nonplusWorld a).cfg.plus = false ∧ (nonplusWorld a).cfg.feature = 0 ∧ (nonplusWorld a).cfg.activated = a := by
+  intro a
+  cases a <;> exact ⟨by unfold DrvState.Wf; decide, by constructor <;> decide, rfl, rfl, rfl, rfl⟩
+
+/-- … and what the constructor makes of it: non-plus detected, registers unlocked and programmed -/
+example : ∀ a, (exec init (nonplusWorld a)).1 = .ok () ∧ (exec init (nonplusWorld a)).2.d.isPlus = false ∧
+    (exec init (nonplusWorld a)).2.cfg.activated = true ∧ (exec init (nonplusWorld a)).2.cfg.feature = 5 ∧
+    (exec init (nonplusWorld a)).2.cfg.dynpd = 0x3F := by
+  decide +kernel
+
+/-- **Histories on a freshly constructed object, any chip.**  `C03_history` for the state `__init__`
+    leaves, without the hypothesis that the object knows its variant (`Inv`): for every chip as in
+    `C03_init_detects_variant` whose log is clean, after `__init__` and any sequence of calls the
+    invariant holds, results and registers are the documented ones (`docRun` from the abstract state
+    `__init__` left) — in particular `is_plus_variant` returns the chip's variant, and the domain of
+    the carrier-wave calls is decided by the chip's real variant. -/
+theorem C03_init_history (cs : List Call) (s : DrvState) (hw : s.Wf) (hr : RadioShape s.cfg)
+    (hlog : LogOk s.cfg.violations) (hd : s.d.config = 0x0E) (hdom : ∀ c ∈ cs, c.dom (s.w.radio s.d.rid).plus) :
+    let s1 := (exec init s).2
+    (exec init s).1 = .ok () ∧ Inv s1 ∧ s1.abs.r.plus = (s.w.radio s.d.rid).plus ∧
+    Inv (runCalls cs s1).2 ∧
+    (runCalls cs s1).1 = (docRun cs s1.abs).1 ∧
+    (runCalls cs s1).2.abs = (docRun cs s1.abs).2 ∧
+    (∀ j, j ≠ s.d.rid → (runCalls cs s1).2.cfgAt j = s.cfgAt j) := by
+  intro s1
+  obtain ⟨h1, h2, h3⟩ := C03_init_inv s hw hr hlog hd
+  obtain ⟨c, hpost, hplus, _, _⟩ := init_post s hw hr hd
+  have hp1 : s1.cfg.plus = (s.w.radio s.d.rid).plus := by
+    have : s1.cfg = c := hpost.cfg
+    rw [this]; exact hplus
+  obtain ⟨k1, k2, k3, k4⟩ := C03_history cs s1 h2 (by intro c hc; rw [hp1]; exact hdom c hc)
+  refine ⟨h1, h2, hp1, k1, k2, k3, fun j hj => ?_⟩
+  rw [k4 j (by rw [show s1.d.rid = s.d.rid from hpost.rid]; exact hj)]
+  exact h3 j hj
+
+/-- `is_plus_variant` on a freshly constructed object returns the chip's variant (K2) -/
+theorem C03_init_is_plus_variant (s : DrvState) (hw : s.Wf) (hr : RadioShape s.cfg)
+    (hlog : LogOk s.cfg.violations) (hd : s.d.config = 0x0E) :
+    (exec (runCall .isPlusVariant) (exec init s).2).1 = .ok (.bool (s.w.radio s.d.rid).plus) := by
+  obtain ⟨_, h2, h3, _, k2, _, _⟩ := C03_init_history [.isPlusVariant] s hw hr hlog hd
+    (by intro c hc; simp only [List.mem_cons, List.not_mem_nil, or_false] at hc; subst hc; trivial)
+  have hstep := (C03_step .isPlusVariant (exec init s).2 h2 trivial).2.1
+  have := hstep (exec init s).2.abs (.bool (exec init s).2.abs.r.plus) rfl
+  rw [this.1, h3]
+
+example : ∃ s : DrvState, s.Wf ∧ RadioShape s.cfg ∧ LogOk s.cfg.violations ∧ s.d.config = 0x0E ∧
+    (s.w.radio s.d.rid).plus = false ∧ (s.w.radio s.d.rid).featureVisible = false :=
+  ⟨nonplusWorld false, by unfold DrvState.Wf; decide, by constructor <;> decide, (by intro e he; cases he), rfl, rfl, rfl⟩
 
 /-- **Getters agree with setters.**  For every attribute field `f` (`Field`: channel, data rate, PA
     level, LNA, CRC bits, address length, ARD, ARC, auto-ack mask, dynamic-payload mask, the six
@@ -144,7 +234,7 @@ def s0 : DrvState := (exec enter (exec init { d := {}, w := World.fresh 2 }).2).
 
 theorem C03_nonvacuous_inv : Inv s0 := by
   have hshape : RadioShape (DrvState.cfg { d := {}, w := World.fresh 2 }) := by constructor <;> decide
-  have h1 := C03_init_inv { d := {}, w := World.fresh 2 } (by unfold DrvState.Wf; decide) hshape rfl
+  have h1 := C03_init_inv { d := {}, w := World.fresh 2 } (by unfold DrvState.Wf; decide) hshape
     (by intro e he; cases he) rfl
   exact (reenter_inv _ h1.2.1).2
 
